@@ -34,7 +34,7 @@ impl Prop for C19 {
   fn rule(&self) -> String { "programs from the typed generator (construct sweep + composites of 1-14 statements; with and without assignment / op-assignment statements; operators, ranges, indexing, concatenation, conversions, sets, tables, records, stdlib calls, comprehensions) x step counts {1,2,3,7}: (a) two independent interpreters in one process, (b) one step(0,n) against n single steps, (c) the digests of all snapshots must agree across separate worker processes (each has different hash seeds), (d) for assignment-free programs every snapshot equals the one after the first evaluation, and (e) the same program compiled, loaded and run in a fresh interpreter keeps every variable when its loaded plan is stepped twice. Non-trivial = the program interpreted and its plan was stepped".into() }
   fn assumptions(&self) -> Vec<String> { vec!["snapshots are canonical deep copies of Interpreter::symbols() without the built-in ans".into()] }
   fn floor(&self, tier: Tier) -> usize { if tier == Tier::Quick { 500 } else { 5000 } }
-  fn replicas(&self, tier: Tier) -> usize { if tier == Tier::Quick { 3 } else { 8 } }
+  fn replicas(&self, tier: Tier) -> usize { if tier == Tier::Quick { 2 } else { 8 } }
 
   fn gen(&self, tier: Tier, seed: u64) -> Vec<Case> {
     let mut out = Vec::new();
